@@ -24,7 +24,7 @@ func init() {
 	register(&Rule{ID: "DT15", Min: 1, Run: ruleDT15,
 		Doc: "recorded-instants-round-trip: the layout every instant is written with - by the event constructor and by compaction, which re-serialises the replayed CreatedAt/UpdatedAt/ClaimedAt of every item - keeps what the reader parses: nanoseconds (.999999999 or .000000000) and an explicit zone, and the instant is not truncated or rounded first. A coarser layout makes compaction rewrite the instants of a log written with the finer one: items created microseconds apart (a plan) tie afterwards, and the order in which claim hands them out, and every list sorted by time, changes across compact"})
 	register(&Rule{ID: "DT16", Min: 1, Run: ruleDT16,
-		Doc: "sibling-cases-read-the-payload-alike: event types that share one payload struct (link and unlink share LinkEvent) are handled by replay cases that read the same fields of it, directly or through the payload's accessor methods. When the payload gains a second spelling of a key (a legacy field kept readable for old logs) and one case is taught to read it while its sibling still reads only the current field, old logs replay one kind of event and silently ignore the other: every edge ever removed comes back"})
+		Doc: "sibling-cases-read-the-payload-alike: event types that share one payload struct (link and unlink share LinkEvent) are handled by replay cases that read the same fields of it, directly or through the payload's accessor methods. When the payload gains a second spelling of a key (a legacy field kept readable for old logs) and one case is taught to read it while its sibling still reads only the current field, old logs replay one kind of event and silently ignore the other: every edge ever removed comes back. Types that share one case body (case \"link\", \"unlink\":) have no sibling cases to disagree"})
 	register(&Rule{ID: "WR9", Min: 1, Run: ruleWR9,
 		Doc: "log-read-by-the-tolerant-reader: the event log is opened for reading only by the log reader (readEvents, which honours a complete final line without newline and drops a torn one) and by the append path's tail probe. Any other function that opens or slurps a LOG-class path parses it with rules of its own: after a crash that leaves a torn line, or while a writer is appending, it fails where every other command succeeds"})
 }
@@ -717,6 +717,7 @@ func ruleDT16(c *Ctx) {
 			}
 		})
 	}
+	var shared []string
 	for _, t := range types_ {
 		edges := rm.caseEdgesFor(t)
 		blocks := map[*ssa.BasicBlock]bool{}
@@ -726,6 +727,7 @@ func ruleDT16(c *Ctx) {
 			}
 		}
 		if len(blocks) == 0 {
+			shared = append(shared, t)
 			continue // a type sharing its case with others (case "new_task", "new_epic"): no block of its own
 		}
 		reads := map[string]map[string]bool{}
@@ -790,6 +792,11 @@ func ruleDT16(c *Ctx) {
 				"reads the same payload fields as its sibling case(s) "+strings.Join(sibs, ", "),
 				fmt.Sprintf("the replay case %q never reads %s of %s, which its sibling case(s) %s read: events of this type written with that spelling of the key are silently ignored (or applied to the wrong item) while their siblings are honoured", ci.typ, strings.Join(missing, ", "), p, strings.Join(sibs, ", ")))
 		}
+	}
+	if n == 0 && len(shared) >= 2 {
+		// every pair of types with one payload shares one case body (case "link", "unlink":): one decode, one set of reads
+		c.ok(c.Name(sw), "sibling-cases", c.FnPos(sw), "the event types sharing a payload ("+strings.Join(shared, ", ")+") share their case bodies: there are no sibling cases that could read it differently")
+		n++
 	}
 	if n == 0 {
 		c.unk(c.Name(sw), "sibling-cases", c.FnPos(sw), "no two replay cases sharing a payload type found (link/unlink not recognisable)")
